@@ -204,8 +204,9 @@ func c18RandomCase(rnd *rand.Rand, maxK int, fmts []string) c18Case {
 			c.Roots = append(c.Roots, alt)
 			pr.Chain = "random"
 		}
-	} else if rnd.Intn(2) == 0 {
-		pr.Chain = "infraFirst"
+	} else {
+		pr.Chain = pick("one", "infraFirst", "infraMixed")
+		pr.Conf = pick("transitional", "strict")
 	}
 	c.Prof = pr
 	return c
